@@ -140,13 +140,15 @@ def part_signing(ctx, wt, m, n, how, thorough):
         rep = {'op': 'sign', 'wt': wt, 'm': m, 'n': n, 'handoff': how, 'signers_in_order': seq, 'spent_output_numbers': outns}
         first = ws[seq[0]]
         created_by = ctx.rng.choice(['transaction_create', 'send'])
+        rbf = ctx.rng.random() < 0.4          # the creator signals replace-by-fee: a sequence the importing wallet would not choose itself
         rep['created_by'] = created_by
+        rep['replace_by_fee'] = rbf
         try:
             if created_by == 'send':
                 # the usual way: send() without broadcasting creates, signs and serialises the transaction
-                t = first.send([(EXT, 100000)], input_arr=[(txid, on) for on in outns], fee=5000, broadcast=False)
+                t = first.send([(EXT, 100000)], input_arr=[(txid, on) for on in outns], fee=5000, broadcast=False, replace_by_fee=rbf)
             else:
-                t = first.transaction_create([(EXT, 100000)], input_arr=[(txid, on) for on in outns], fee=5000)
+                t = first.transaction_create([(EXT, 100000)], input_arr=[(txid, on) for on in outns], fee=5000, replace_by_fee=rbf)
                 t.sign()
         except Exception as e:
             ctx.violation('the first cosigner cannot create and sign the spend', dict(rep, error='%s: %s' % (type(e).__name__, str(e)[:80])))
